@@ -179,7 +179,7 @@ func cmdDirected(quick bool) {
 				}
 				r := &rep{t: t, kind: "scalar:" + sr.name, gt: sr.gt, s: sr}
 				emit(t, r, a, primitive.ProtocolVersion4)
-				if !isBigPtr(sr.gt) && len(a.bs) < 1000 && ((ai+si)%3 == 0 || (extreme && (a.kind == "float" || repEdge(sr, a)))) {
+				if !isBigPtr(sr.gt) && len(a.bs) < 1000 && ((ai+si)%3 == 0 || (extreme && a.kind == "float")) {
 					emit(t, ptrTo(r), a, primitive.ProtocolVersion2)
 				}
 			}
